@@ -98,6 +98,32 @@ CHECKS = {
          "No Jenkins server involved (job calculation and spec only). A shared checkout/build step may be executed by several jobs; "
          "the exactly-one-job rule is applied to package steps. One known finding (names folding to one job) is excluded and counted.",
          "3 (C20)", "E2 projgen, E5 pkgdump"),
+ "C05": ("fault_enumeration",
+         "Hypothesis (project, edits, fault plan) generation; fault injection at instrumented kill points of the aborted invocation (state saves, workspace mutations, audit saves, script entry/exit), script failure and script-kills-Bob switches; oracle = final build equals clean build (recorder scripts + tree canonicaliser)",
+         "An invocation of a generated project history is aborted by 1-2 generated faults (failing script, script killing Bob, Bob dying "
+         "before/after its k-th kill point counted in a dry run); after removing the stale lock the next build must succeed and every "
+         "package result must equal a clean build of the same state.",
+         "Bob's own death is emulated in-process (BaseException at the kill point, no later instrumented mutation); kill -9 from a script "
+         "uses a real forked child; suspected violations are confirmed with real processes and a real os._exit. k is generated, not "
+         "exhaustive, in both tiers.",
+         "3 (C05)", "E1 bobproc, E2 projgen, E3 scripts, E4 treecanon"),
+ "C09": ("fault_enumeration",
+         "operation-trace fault enumeration (kill / I-O error at every file-system operation of the upload, metadata upload and cache-mirror paths, competitor injected before every operation) plus Hypothesis-generated schedules of concurrent uploader/reader/mirror processes under a harness-owned scheduler; oracle = artifact name absent or complete payload, never replaced, inotify cross-check",
+         "For generated payloads every file-system operation of LocalArchive uploads is used as kill point, I/O-error point and "
+         "competitor-injection point; concurrent uploaders/readers/mirroring downloaders run under generated interleavings. A reader "
+         "must see nothing or a complete artifact that never changes; failed uploads leave nothing under the name.",
+         "Single-uploader kills are emulated in-process (all later primitives become no-ops), real kills occur in the scheduler layer; "
+         "no power-loss model; http/azure back-ends not covered. A temporary file left by a failed (not killed) upload is counted as "
+         "information only - the property speaks about the artifact name.",
+         "3 (C09)", "own tracer/scheduler (checks/c09_upload.py)"),
+ "C16": ("exploration",
+         "Hypothesis (project, churn-oriented edit history, clean plan) generation; invariant oracles over directory assignment (one variant per directory, surviving variants keep directories), dry-run vs real clean differential, garbage/used-set oracle from the real query-path output, final contents vs clean build",
+         "After every build of a generated history the directory assignment is checked; generated `bob clean` calls (dry-run then real) "
+         "must delete exactly the unassigned build/dist workspaces, keep sources without -s, and leave nothing to rebuild; final "
+         "contents must equal a clean build.",
+         "The set of assigned directories is taken from `bob query-path` of the same state (existing workspaces of the current graph). "
+         "Source workspaces with -s may or may not be removed (SCM status decides).",
+         "3 (C16)", "E1 bobproc, E2 projgen, E4 treecanon"),
 }
 
 NOT_YET = {}
